@@ -20,7 +20,11 @@ def main():
     except lower.ExtractionBreak as e:
         print('EXTRACTION BREAK:', e); sys.exit(2)
     print('scratch', core.scratch())
+    seen = set()
     for n, r in res.items():
+        if r.reason.startswith('goto-cc failed'):
+            if 'cc' in seen: continue
+            seen.add('cc')
         nf = len(r.failed())
         print('%-40s %-9s obl=%d fail=%d cover=%s %.1fs %s' % (n, r.status, len(r.obligations), nf, r.cover_ok, r.solver_s, r.reason[:1500]))
         for o in r.failed()[:12]:
